@@ -56,24 +56,16 @@ fn read_char() -> char { unimplemented!() }
 impl RunState {
 // ---- R8: unsafe accessors; bodies trusted, every call site must prove the bound
 //@fn src/runtime.rs "impl RunState" reg ret=r props=C02 ext
-        requires reg < 8,
-        ensures r == self.reg[reg as int],
+//@contract RunState_reg.c
 //@end
 //@fn src/runtime.rs "impl RunState" reg_mut ret=r props=C02 ext
-        requires reg < 8,
-        ensures *r == old(self).reg[reg as int],
-            final(self).reg@ == old(self).reg@.update(reg as int, *final(r)),
-            final(self).mem == old(self).mem, final(self).pc == old(self).pc, final(self).flag == old(self).flag,
-            final(self).orig == old(self).orig, final(self)._psr == old(self)._psr,
+//@contract RunState_reg_mut.c
 //@end
 //@fn src/runtime.rs "impl RunState" mem ret=r props=C02 ext
-        ensures r == self.mem[addr as int],
+//@contract RunState_mem.c
 //@end
 //@fn src/runtime.rs "impl RunState" mem_mut ret=r props=C02 ext
-        ensures *r == old(self).mem[addr as int],
-            final(self).mem@ == old(self).mem@.update(addr as int, *final(r)),
-            final(self).reg == old(self).reg, final(self).pc == old(self).pc, final(self).flag == old(self).flag,
-            final(self).orig == old(self).orig, final(self)._psr == old(self)._psr,
+//@contract RunState_mem_mut.c
 //@end
 
 // ---- s_ext: contract assumed here; discharged by the complete Kani harness kani/harness/runtime.rs::s_ext_complete
@@ -176,13 +168,7 @@ impl RunState {
 
 //@fn src/runtime.rs "impl RunState" execute props=C02,C18
 //@dispatch OP_TABLE
-        requires instr >> 12u16 != 8,
-        ensures
-            match step_spec(view(*old(self)), instr, features::stack_spec()) {
-                Step::Next(s) => mstate_eq(view(*final(self)), s),
-                Step::Exit(c) => false,
-                Step::Unspecified => only_r0_changed(view(*old(self)), view(*final(self))),
-            },
+//@contract RunState_execute.c
 //@end
 }
 
